@@ -9,6 +9,7 @@ namespace cfg {
 static std::string num(const Config &c, unsigned v) {
 	char b[16];
 	if (c.hexnums) snprintf(b, sizeof b, "0x%02x", v);
+	else if (c.zeropad) snprintf(b, sizeof b, "%03u", v);
 	else snprintf(b, sizeof b, "%u", v);
 	return b;
 }
@@ -236,6 +237,7 @@ Config generate(DP &dp, const GenOpts &o) {
 	Config c;
 	G g{dp, o};
 	c.hexnums = !dp.chance(64);
+	c.zeropad = !c.hexnums && o.allow_zeropad && dp.chance(128);
 	int nb = dp.range(std::max(o.min_boards, o.need_track_output ? 1 : 0), o.max_boards);
 	std::set<std::string> uids;
 	for (int bi = 0; bi < nb; bi++) {
